@@ -434,6 +434,9 @@ def read_associate_def(line: str):
         if match_char < 0:
             return "assoc", []
         var_words = separate_def_list(trailing_line[:match_char].strip())
+        if var_words is None:
+            # A list that starts with a comma
+            var_words = []
         return "assoc", var_words
 
 
